@@ -20,6 +20,8 @@ TAppend ==
   /\ LET c == ToCfg(Ev.c) IN
      /\ Chk("accepted_iff_valid", Ev.accepted = Valid(Append(cfgs, c)))
      /\ Chk("accepted_iff_code_rule", Ev.accepted = Accepts(cfgs, c))
+     /\ Chk("invalid_epoch_is_refused_with_the_documented_error",
+            Ev.accepted \/ "exc" \notin DOMAIN Ev \/ Ev.exc = "RuntimeError")
      /\ IF Ev.accepted THEN MAppend(c) ELSE MAppendRejected(c)
   /\ Chk("configs_observed", Ev.n = Len(cfgs'))
   /\ Invs /\ Step
@@ -46,6 +48,7 @@ TStan ==
   /\ IsEvent("stan")
   /\ LET a == Ev.args IN
      \* through EngineBuilder.set_duration the schedule is also fed to an EpochManager, which rejects invalid ones
+     /\ Chk("schedule_refused_only_with_the_documented_errors", "unexpected" \notin DOMAIN Ev \/ Ev.unexpected = "")
      /\ Chk("stan_raises_iff_documented",
             Ev.raised = (IF StanRaises(a) THEN TRUE ELSE Ev.via_builder /\ ~Valid(Stan(a))))
      /\ (IF Ev.raised THEN TRUE ELSE
